@@ -211,3 +211,313 @@ Theorem C15_no_second_resume_prio_boost :
   bo s t = None -> x <> FPending -> fut_finish s g x = (s', ok) -> hcnt s' t = hcnt s t.
 Proof. exact (no_second_resume qok_boost QSpec_boost). Qed.
 Print Assumptions C15_no_second_resume_prio_boost.
+
+(* ====================================================================================
+   Second part: `await task_interrupt(t', e)` runs the target NEXT; a later throw / cancel()
+   supersedes; exactly one live handle; loop errors.  Proofs: Sched/InterruptNext.v,
+   Sched/ErrorsFrame.v.
+
+   Additional vocabulary:
+     QNext qok   what "position 0 is the head of the run order" needs from the ready queue, on
+                 top of QSpec:  rq_items (rq_insert_pos r 0 h) = h :: rq_items r ;  popleft
+                 returns the head of rq_items ;  a handle appended after an insert at position 0
+                 stays behind it.  Proved for the list queue (QNext_list) and for the
+                 PosPriorityQueue with boosting off (QNext_pos).
+     NDH s       no handle of a finished task is queued. *)
+From Asynkit Require Import Sched.Corr Sched.InterruptNext Sched.ErrorsFrame.
+
+(* a refused interrupt: task_interrupt raises the RuntimeError of task_throw, state unchanged;
+   under the invariant there are exactly two outcomes - refused, or accepted and asleep *)
+Theorem C15_interrupt_refused :
+  (forall t t' e s s1 x, task_throw s t' e = (s1, RExc x) ->
+     lib_call t (OTaskInterrupt t' e) s = (s, LDone (RExc x)) /\ s1 = s /\ exists k, x = ERuntime k) /\
+  (forall qok, QSpec qok -> forall c s t t' e, InvC qok c s ->
+     (exists k, task_throw s t' e = (s, RExc (ERuntime k)) /\
+                lib_call t (OTaskInterrupt t' e) s = (s, LDone (RExc (ERuntime k)))) \/
+     (exists s1 s', task_throw s t' e = (s1, RVal 0) /\
+                    lib_call t (OTaskInterrupt t' e) s = (s', LSusp YNone [InSleep0]))).
+Proof. split; [exact interrupt_refused|exact interrupt_dichotomy]. Qed.
+Print Assumptions C15_interrupt_refused.
+
+(* an accepted interrupt (the call suspends in its sleep(0)): the state s' differs from the
+   result s1 of the throw (C15_throw_effect) only in the ready queue, where the target's new
+   handle hn = HStep t' (Some e) - its only handle - now is the HEAD of the run order;
+   popleft returns it, so the next run_one IS step_task t' (Some e): the target runs before any
+   other task, and is not done (no InvalidStateError).  The interrupting task itself, when it is
+   the running task, has no handle at all in s' *)
+Theorem C15_interrupt_next :
+  forall qok, QSpec qok -> QNext qok -> forall c s t t' e s',
+  InvC qok c s -> lib_call t (OTaskInterrupt t' e) s = (s', LSusp YNone [InSleep0]) ->
+  let hn := length (handles s) in
+  exists s1 v r' r'',
+    task_throw s t' e = (s1, RVal v) /\
+    s' = s1 <| ready := rq_insert_pos r' 0 hn |> /\ qok r' /\
+    Permutation (rq_items (ready s1)) (hn :: rq_items r') /\
+    InvC qok c s' /\
+    geth s' hn = mkH (HStep t' (Some e)) false /\
+    rq_items (ready s') = hn :: rq_items r' /\
+    (forall h, In h (rq_items r') -> task_key s' t' h = false) /\
+    rq_popleft (ready s') = Some (hn, r'') /\ rq_items r'' = rq_items r' /\
+    run_one s' = step_task t' (Some e) (s' <| ready := r'' |>) /\
+    tdone s' t' = false /\ hcnt s' t' = 1 /\
+    (c = Some t -> tdone s' t = false -> hcnt s' t = 0).
+Proof. exact interrupt_next. Qed.
+Print Assumptions C15_interrupt_next.
+
+(* the whole step of the interrupting task t (it is the running task): its code calls
+   `await task_interrupt(t', e)`, the call suspends, Task.__step re-schedules t with call_soon.
+   In the state sf the loop sees next, the head of the run order is the target's handle hn with
+   the exception; t's own handle HStep t None is the fresh one S hn, BEHIND it, and is t's only
+   handle: t is resumed only after the target has been stepped *)
+Theorem C15_interrupt_then_yield :
+  forall qok, QSpec qok -> QNext qok -> forall s t t' e s' k,
+  InvC qok (Some t) s -> tdone s t = false ->
+  lib_call t (OTaskInterrupt t' e) s = (s', LSusp YNone [InSleep0]) ->
+  exec t (Call (OTaskInterrupt t' e) k) s = (s', OYield YNone [InSleep0] k) /\
+  let sf := finish_step t s' (OYield YNone [InSleep0] k) <| current := None |> in
+  let hn := length (handles s) in
+  t' <> t /\
+  exists l r'',
+    rq_items (ready sf) = hn :: l /\
+    geth sf hn = mkH (HStep t' (Some e)) false /\
+    geth sf (S hn) = mkH (HStep t None) false /\
+    In (S hn) l /\
+    (forall h, In h l -> task_key sf t' h = false) /\
+    (forall h, In h l -> task_key sf t h = true -> h = S hn) /\
+    tcont_ (gett sf t) = TSusp [InSleep0] k /\
+    rq_popleft (ready sf) = Some (hn, r'') /\ rq_items r'' = l /\
+    run_one sf = step_task t' (Some e) (sf <| ready := r'' |>).
+Proof. exact interrupt_then_yield. Qed.
+Print Assumptions C15_interrupt_then_yield.
+
+(* both ready queues qualify *)
+Theorem C15_interrupt_queues : QNext qok_list /\ QNext qok_pos.
+Proof. split; [exact QNext_list|exact QNext_pos]. Qed.
+Print Assumptions C15_interrupt_queues.
+
+(* in particular on the stock / scheduling loops (list queue) and on the priority loop *)
+Theorem C15_interrupt_next_list :
+  forall c s t t' e s',
+  InvC qok_list c s -> lib_call t (OTaskInterrupt t' e) s = (s', LSusp YNone [InSleep0]) ->
+  let hn := length (handles s) in
+  exists l', ready s' = RList (hn :: l') /\ geth s' hn = mkH (HStep t' (Some e)) false /\
+             (forall h, In h l' -> task_key s' t' h = false) /\
+             run_one s' = step_task t' (Some e) (s' <| ready := RList l' |>) /\ tdone s' t' = false.
+Proof.
+  intros c s t t' e s' I L hn.
+  destruct (interrupt_next qok_list QSpec_list QNext_list c s t t' e s' I L)
+    as (s1 & v & r' & r'' & _ & _ & _ & _ & I' & G & It & Z & Pp & _ & R & Hd & _).
+  fold hn in G, It, Pp, R.
+  pose proof (i_qok (i_wf I')) as Q. destruct (ready s') as [l0|p] eqn:Er; [|destruct Q].
+  simpl in It. subst l0. exists (rq_items r'). simpl in Pp. inversion Pp; subst r''.
+  split; [reflexivity|]. repeat (split; [assumption|]). assumption.
+Qed.
+Print Assumptions C15_interrupt_next_list.
+
+Theorem C15_interrupt_next_prio :
+  forall c s t t' e s',
+  InvC qok_pos c s -> lib_call t (OTaskInterrupt t' e) s = (s', LSusp YNone [InSleep0]) ->
+  let hn := length (handles s) in
+  exists l' r'',
+    rq_items (ready s') = hn :: l' /\ geth s' hn = mkH (HStep t' (Some e)) false /\
+    (forall h, In h l' -> task_key s' t' h = false) /\
+    rq_popleft (ready s') = Some (hn, r'') /\ rq_items r'' = l' /\
+    run_one s' = step_task t' (Some e) (s' <| ready := r'' |>) /\ tdone s' t' = false.
+Proof.
+  intros c s t t' e s' I L hn.
+  destruct (interrupt_next qok_pos QSpec_pos QNext_pos c s t t' e s' I L)
+    as (s1 & v & r' & r'' & _ & _ & _ & _ & I' & G & It & Z & Pp & It' & R & Hd & _).
+  exists (rq_items r'), r''. repeat (split; [assumption|]). assumption.
+Qed.
+Print Assumptions C15_interrupt_next_prio.
+
+(* superseded.  (1) a second accepted throw REPLACES the pending handle: the handle h1 carrying e1
+   is removed from the ready queue, the only live handle of t is the new h2 = HStep t (Some e2);
+   nothing else changes.  (2) cancel() after an accepted throw only sets _must_cancel (t has no
+   waiter any more): the handle stays, Task.__step will deliver e itself if it is a
+   CancelledError and a fresh CancelledError otherwise (C15_delivered), and further throws are
+   refused ("cannot interrupt a cancelled task") with the state unchanged *)
+Theorem C15_superseded :
+  forall qok, QSpec qok ->
+  (forall c s t e1 e2 s1 s2 v1 v2,
+     InvC qok c s -> task_throw s t e1 = (s1, RVal v1) -> task_throw s1 t e2 = (s2, RVal v2) ->
+     let h1 := length (handles s) in
+     let h2 := S h1 in
+     InvC qok c s2 /\
+     handles s2 = handles s ++ [mkH (HStep t (Some e1)) false; mkH (HStep t (Some e2)) false] /\
+     geth s2 h1 = mkH (HStep t (Some e1)) false /\ geth s2 h2 = mkH (HStep t (Some e2)) false /\
+     ~ In h1 (rq_items (ready s2)) /\ In h2 (rq_items (ready s2)) /\
+     hcnt s2 t = 1 /\
+     (forall h, In h (rq_items (ready s2)) -> task_key s2 t h = true -> h = h2) /\
+     (forall g, getf s2 g = getf s1 g) /\ (forall t', gett s2 t' = gett s1 t') /\
+     (forall t', t' <> t -> hcnt s2 t' = hcnt s1 t') /\
+     locks s2 = locks s1 /\ conds s2 = conds s1 /\ events s2 = events s1 /\ blocks s2 = blocks s1 /\
+     timers s2 = timers s1 /\ now s2 = now s1 /\ current s2 = current s1 /\ log s2 = log s1 /\
+     errors s2 = errors s1) /\
+  (forall c s t e s1 v,
+     InvC qok c s -> task_throw s t e = (s1, RVal v) ->
+     let s2 := sett s1 t (gett s1 t <| tmustc := true |>) in
+     cancel_task s1 t = (s2, true) /\ InvC qok c s2 /\
+     ready s2 = ready s1 /\ handles s2 = handles s1 /\ futs s2 = futs s1 /\
+     hcnt s2 t = 1 /\ tdone s2 t = false /\
+     geth s2 (length (handles s)) = mkH (HStep t (Some e)) false /\
+     gett s2 t = gett s1 t <| tmustc := true |> /\
+     (forall t', t' <> t -> gett s2 t' = gett s1 t') /\
+     (forall e', delivered_exn s2 t e' = if is_cancel e' then e' else ECancelled) /\
+     (forall e', task_throw s2 t e' = (s2, RExc (ERuntime rt_task_cancelled)))).
+Proof. intros qok QS. split; [exact (throw_supersedes qok QS)|exact (cancel_after_throw qok QS)]. Qed.
+Print Assumptions C15_superseded.
+
+(* exactly once.  Invariant form: in every state reachable (from an Inv09 state, by any actions
+   whatsoever: steps of other tasks, timers, completion of the future the target used to wait
+   on, further throws, cancels, spawns) a task that is not done and not blocked has exactly ONE
+   handle in the ready queue and its wake-up callback is on no pending future - so nothing can
+   resume it a second time.  In particular after an accepted throw, whose handle is that one. *)
+Theorem C15_delivered_once :
+  forall qok, QSpec qok ->
+  (forall acts s t, Inv09 qok s -> actions_ok s acts ->
+     let s' := fold_left do_action acts s in
+     Inv09 qok s' /\
+     (t < length (tasks s') -> tdone s' t = false -> bo s' t = None ->
+      hcnt s' t = 1 /\ forall g, fdone s' g = false -> ccnt s' t g = 0)) /\
+  (forall s t e s1 v acts,
+     Inv09 qok s -> task_throw s t e = (s1, RVal v) -> actions_ok s1 acts ->
+     let s' := fold_left do_action acts s1 in
+     Inv09 qok s1 /\ hcnt s1 t = 1 /\ geth s1 (length (handles s)) = mkH (HStep t (Some e)) false /\
+     Inv09 qok s' /\ t < length (tasks s') /\
+     (tdone s' t = false -> bo s' t = None ->
+      hcnt s' t = 1 /\ forall g, fdone s' g = false -> ccnt s' t g = 0)).
+Proof. intros qok QS. split; [exact (one_handle_while_runnable qok QS)|exact (delivered_once qok QS)]. Qed.
+Print Assumptions C15_delivered_once.
+
+(* loop errors.  (1)-(4): the model's error list is written in exactly two places - Task.__step of
+   a task that is already done (InvalidStateError) and a _task_reinsert callback whose task is
+   not queued (ValueError); library calls, library frames, user code of any shape, the end of a
+   step and every non-step action never touch it.  (5) if no handle of a finished task is queued
+   (NDH) a loop step never raises InvalidStateError.  (6),(7) task_throw and task_interrupt
+   preserve NDH and the error list, whatever their outcome.  (8) the step that delivers an
+   accepted interrupt adds no error.  (9) NDH is needed: Inv09 alone leaves finished tasks
+   unconstrained because the model lets code complete a task's own future (witness) *)
+Theorem C15_loop_errors :
+  (forall t op s s' r, lib_call t op s = (s', r) -> errors s' = errors s) /\
+  (forall t c s s' o, exec t c s = (s', o) -> errors s' = errors s) /\
+  (forall t exc s, errors (step_task t exc s) =
+                   if tdone s t then errors s ++ [LEInvalidState] else errors s) /\
+  (forall c s, errors (run_callback c s) =
+     match c with
+     | HStep t _ | HWakeup t _ => if tdone s t then errors s ++ [LEInvalidState] else errors s
+     | HReinsert t p => match rq_find (ready s) (task_key s t) true with
+                        | Some _ => errors s | None => errors s ++ [LEValue] end
+     | _ => errors s
+     end) /\
+  (forall s a, a <> AStep -> errors (do_action s a) = errors s) /\
+  (forall qok, QSpec qok -> forall s, qok (ready s) -> NDH s ->
+     errors (run_one s) = errors s \/
+     (errors (run_one s) = errors s ++ [LEValue] /\
+      exists h r t p, rq_popleft (ready s) = Some (h, r) /\ geth s h = mkH (HReinsert t p) false /\
+                      rq_find r (task_key s t) true = None)) /\
+  (forall qok, QSpec qok -> forall c s t e s1 r,
+     InvC qok c s -> NDH s -> task_throw s t e = (s1, r) -> NDH s1 /\ errors s1 = errors s) /\
+  (forall qok, QSpec qok -> forall c s t t' e s' r,
+     InvC qok c s -> NDH s -> lib_call t (OTaskInterrupt t' e) s = (s', r) ->
+     NDH s' /\ errors s' = errors s) /\
+  (forall qok, QSpec qok -> QNext qok -> forall c s t t' e s',
+     InvC qok c s -> lib_call t (OTaskInterrupt t' e) s = (s', LSusp YNone [InSleep0]) ->
+     errors s' = errors s /\ errors (run_one s') = errors s) /\
+  (let s := fold_left do_action [ASpawn SPlain (Ret 0); ADo (OSetResult 0 1)]
+                      (init_st false 0 [] [] [] 0) in
+   Inv09 qok_list s /\ ~ NDH s /\ errors (run_one s) = [LEInvalidState]).
+Proof.
+  split; [intros t op s s' r E; exact (Er_lib_call s t op s s' r E (Er_refl s))|].
+  split; [intros t c s s' o E; exact (Er_exec s t c s s' o E (Er_refl s))|].
+  split; [exact step_task_errors|]. split; [exact run_callback_errors|]. split; [exact action_errors|].
+  split; [exact run_one_no_invalid_state|]. split; [exact throw_keeps_ndh|].
+  split; [exact interrupt_keeps_ndh|]. split; [exact interrupt_delivery_no_error|].
+  exact inv09_not_enough.
+Qed.
+Print Assumptions C15_loop_errors.
+
+(* non-vacuity: interrupting the blocked Python task 0 of the C09 example state (task 2 is
+   runnable with its handle queued): accepted, task 0's new handle (3) is put in FRONT of task
+   2's handle (2); and a whole run on the list loop: worker 0 waits on a future, worker 1 is a
+   bystander that is ready, worker 2 interrupts worker 0 - the interrupted task logs first
+   (955 = EUser 5 caught, then 1), then the bystander (7), then the interrupter (2) *)
+Example C15_example_interrupt :
+  (let s := ex_state in
+   let s' := fst (lib_call 3 (OTaskInterrupt 0 (EUser 1)) s) in
+   InvC qok_list None s /\
+   snd (lib_call 3 (OTaskInterrupt 0 (EUser 1)) s) = LSusp YNone [InSleep0] /\
+   rq_items (ready s) = [2] /\ rq_items (ready s') = [3; 2] /\
+   geth s' 3 = mkH (HStep 0 (Some (EUser 1))) false /\ errors (run_one s') = []) /\
+  (let prog0 := STry (SDo (OAwaitFut 0) SEnd) CBase (SLogExc SEnd) SEnd (SDo (OLog 1) SEnd) in
+   let prog1 := SDo OSleep0 (SDo (OLog 7) SEnd) in
+   let prog2 := SDo (OTaskInterrupt 0 (EUser 5)) (SDo (OLog 2) SEnd) in
+   let acts := [XDo ONewFut; XSpawn SPy prog0; XSpawn SPlain prog1; XSpawn SPlain prog2;
+                XStep; XStep; XStep] in
+   let s3 := fold_left do_action (map act acts) (init_st false 0 [] [] [] 0) in
+   let s6 := fold_left do_action [AStep; AStep; AStep] s3 in
+   (* after the interrupter's step: target's handle first, bystander, interrupter last *)
+   map (fun h => hcb (geth s3 h)) (rq_items (ready s3)) =
+     [HStep 0 (Some (EUser 5)); HStep 1 None; HStep 2 None] /\
+   log s6 = [(1, 955%Z); (1, 1%Z); (2, 7%Z); (3, 2%Z)] /\ errors s6 = [] /\
+   fstate_ (getf s6 0) = FPending).
+Proof.
+  split.
+  - cbv zeta. split; [exact (proj1 (proj1 C09_example))|]. vm_compute. repeat split; reflexivity.
+  - vm_compute. repeat split; reflexivity.
+Qed.
+
+(* exactly once, until the target's step (Sched/TaskFrame.v: below Task.__step, in other tasks'
+   steps and in the loop's callbacks a task's entry keeps kind, future and continuation, and its
+   _fut_waiter is only ever cleared).
+     not_stepping t s a   action a in state s does not step t: it is not a loop step, or the handle
+                          the loop step pops is cancelled or is not a step/wake-up handle of t
+     not_stepped t s acts every action of the sequence, in the state it acts on
+   Between an accepted throw and the target's next step - over every such sequence, hence at
+   every moment - the target has no waiter, is not blocked, keeps its continuation (the suspension
+   point where the exception will be raised) and, as long as nobody completes the task's own
+   future behind its back, has exactly ONE handle queued and no wake-up callback on any pending
+   future *)
+From Asynkit Require Import Sched.TaskFrame.
+Theorem C15_delivered_once_until_stepped :
+  forall qok, QSpec qok -> forall s t e s1 v acts,
+  Inv09 qok s -> task_throw s t e = (s1, RVal v) -> actions_ok s1 acts -> not_stepped t s1 acts ->
+  let s' := fold_left do_action acts s1 in
+  Inv09 qok s' /\ t < length (tasks s') /\
+  twaiter (gett s' t) = None /\ bo s' t = None /\
+  tcont_ (gett s' t) = tcont_ (gett s t) /\ tkind_ (gett s' t) = KPy /\
+  tfut (gett s' t) = tfut (gett s t) /\
+  (tdone s' t = false -> hcnt s' t = 1 /\ forall g, fdone s' g = false -> ccnt s' t g = 0).
+Proof. exact delivered_once_until_stepped. Qed.
+Print Assumptions C15_delivered_once_until_stepped.
+
+(* the frame fact itself: an action that does not step t leaves t's kind, future and continuation
+   alone and keeps or clears its waiter *)
+Theorem C15_task_frame :
+  forall t s a, not_stepping t s a ->
+  length (tasks s) <= length (tasks (do_action s a)) /\
+  (t < length (tasks s) ->
+   tkind_ (gett (do_action s a) t) = tkind_ (gett s t) /\ tfut (gett (do_action s a) t) = tfut (gett s t) /\
+   tcont_ (gett (do_action s a) t) = tcont_ (gett s t) /\
+   (twaiter (gett (do_action s a) t) = twaiter (gett s t) \/ twaiter (gett (do_action s a) t) = None)).
+Proof. exact Tf_action. Qed.
+Print Assumptions C15_task_frame.
+
+(* non-vacuity: throw at the blocked task 0 of the C09 example state, then - without stepping it -
+   task 2's step, completion of the future task 0 used to wait on, and cancel(): still exactly one
+   handle of task 0, the one carrying the exception, now with _must_cancel set *)
+Example C15_example_once :
+  let s1 := fst (task_throw ex_state 0 (EUser 1)) in
+  let acts := [AStep; ADo (OSetResult 1 5); ADo (OCancel 0)] in
+  let s' := fold_left do_action acts s1 in
+  snd (task_throw ex_state 0 (EUser 1)) = RVal 0 /\ actions_ok s1 acts /\ not_stepped 0 s1 acts /\
+  tdone s' 0 = false /\ hcnt s' 0 = 1 /\ rq_items (ready s') = [3] /\
+  geth s' 3 = mkH (HStep 0 (Some (EUser 1))) false /\ tmustc (gett s' 0) = true /\
+  fstate_ (getf s' 1) = FResult 5 /\ errors s' = [].
+Proof.
+  cbv zeta. split; [vm_compute; reflexivity|].
+  split; [cbn [actions_ok action_ok op_ok]; exact (conj I (conj I (conj I I)))|]. split.
+  - cbn [not_stepped not_stepping]. split; [|exact (conj I (conj I I))].
+    intros h r P Hc. vm_compute in P. inversion P; subst. vm_compute. discriminate.
+  - vm_compute. repeat split; reflexivity.
+Qed.
